@@ -221,3 +221,16 @@ Theorem C04_source_impl_methods :
   methods_of "GenericSequence<T> for Box<GenericArray<T,N>>" = Some ["generate"] /\
   methods_of "FunctionalSequence<T> for Box<GenericArray<T,N>>" = Some [].
 Proof. repeat split. Qed.
+
+(* dst.clone_from(&src) (the standard default over the modelled clone): when a clone() panics the destination
+   keeps all its elements -- the only releases are those of the clone attempt -- and on success they are dropped
+   exactly once, after the clone is complete *)
+Theorem C04_clone_from : forall tracked cl pan dst src,
+  let '(o, e, c) := clone_from_ tracked cl pan dst src in
+  let '(o', e', c') := clone_ cl pan src in
+  o = o' /\ c = c' /\
+  match o with
+  | Ok _ => e = (e' ++ (if tracked then map EDrop dst else []))%list
+  | _ => e = e'
+  end.
+Proof. exact clone_from_spec. Qed.
